@@ -2256,10 +2256,13 @@ func (r *Raft) preElectSelf() <-chan *preVoteResult {
 
 // persistVote is used to persist our vote for safety.
 func (r *Raft) persistVote(term uint64, candidate []byte) error {
-	if err := r.stable.SetUint64(keyLastVoteTerm, term); err != nil {
+	// The candidate goes first: if only one of the two writes makes it to
+	// disk, the record must not pair the new term with the candidate of an
+	// older vote (who would then be re-granted without any check).
+	if err := r.stable.Set(keyLastVoteCand, candidate); err != nil {
 		return err
 	}
-	if err := r.stable.Set(keyLastVoteCand, candidate); err != nil {
+	if err := r.stable.SetUint64(keyLastVoteTerm, term); err != nil {
 		return err
 	}
 	return nil
